@@ -17,7 +17,8 @@ func init() {
 			"D2 backups contain the cache: Engine.CreateSnapshot goes on to link the files only if the forced WriteSnapshot succeeded, or if it failed with ErrSnapshotInProgress and the caller allowed skipping the cache; " +
 			"D3 time-bounded export keeps every overlapping block and file: the block test of filterFileToBackup equals 'block range overlaps [start,end]' on every ordering of its operands, and in timeStampFilterTarFile the union of the 'filter this file' and 'file entirely inside' tests equals 'file range overlaps [start,end]'; " +
 			"D4 restore installs only complete uploads: Engine.overlay hands files to FileStore.Replace only on paths where the archive was read to io.EOF, and never drops an error of readFileFromBackup; the partial last key batch is flushed to the index (same rule as C14 D2); " +
-			"D5 the source is unchanged: the only thing Backup/Export remove is the temporary snapshot directory returned by CreateSnapshot. " +
+			"D5 the source is unchanged: the only thing Backup/Export remove is the temporary snapshot directory returned by CreateSnapshot; " +
+			"D6 a failure on the serving node is visible to the requester: sibling agreement over the coordinator's connection handlers (20 today): when a handler's work closure failed, the handler writes to the connection before it returns (this found that processBackupShardRequest did not, fixed in efaff60), and pkg/tar.Stream closes the archive writer (end-of-archive marker) only when the directory walk succeeded. " +
 			"NOT decided: tar framing, hard-link semantics, equality of reads on the restored shard.",
 		RuleText:    "obligation = (rule, function, site); outcome facts and path exploration; predicate compilation + exhaustive evaluation over weak orderings under the assumptions min<=max, start<=end; definition provenance",
 		Assumptions: commonAssumptions,
@@ -108,6 +109,8 @@ func runC18(c *core.Ctx) {
 		h := c.Fn(metap + ".(*handler).serveCopyShard")
 		okRule(c, h, "owner-added-only-after-copy", "rpcClient.CopyShard", "store.copyShard", selCall("CopyShard"), evCall(selCall("copyShard")))
 	})
+
+	c.Clause("D6", func() { runFailureAnsweredInBand(c) })
 
 	c.Clause("D2", func() {
 		f := c.Fn(tsm1 + ".(*Engine).CreateSnapshot")
@@ -351,6 +354,193 @@ func runC18(c *core.Ctx) {
 		}
 		c.Floor("file-system mutations in Backup/Export", n, 2)
 	})
+}
+
+// runFailureAnsweredInBand: sibling agreement over the coordinator's connection handlers: when a handler's work
+// closure failed, the handler writes something to the connection before it returns (every handler answers
+// with a response carrying the error). A handler that only logs and returns lets the peer read a clean end of
+// stream, which the copy-shard path takes for a complete backup.
+func runFailureAnsweredInBand(c *core.Ctx) {
+	n := 0
+	for _, f := range c.P.FuncsIn(coord) {
+		if f.Decl == nil || f.Decl.Recv == nil || !strings.HasPrefix(f.Decl.Name.Name, "process") || !strings.HasSuffix(f.Decl.Name.Name, "Request") {
+			continue
+		}
+		if !strings.HasPrefix(f.Name, coord+".(*Service).") {
+			continue
+		}
+		info := f.Info()
+		// the connection parameter
+		var conn types.Object
+		for _, p := range f.Decl.Type.Params.List {
+			if strings.HasSuffix(core.ExprStr(p.Type), "net.Conn") && len(p.Names) == 1 {
+				conn = info.Defs[p.Names[0]]
+			}
+		}
+		if conn == nil {
+			continue
+		}
+		// the work closure: an immediately invoked function literal whose error is tested
+		var work *core.Event
+		for _, e := range f.Graph().Events {
+			if e.Kind != core.EvCall {
+				continue
+			}
+			if _, ok := ast.Unparen(e.Call.Fun).(*ast.FuncLit); ok && work == nil {
+				work = e
+			}
+		}
+		if work == nil {
+			continue
+		}
+		n++
+		usesConn := func(e *core.Event) bool {
+			if e.Kind != core.EvCall && e.Kind != core.EvDeferred {
+				return false
+			}
+			if e == work {
+				return false
+			}
+			for _, a := range e.Call.Args {
+				if id, ok := ast.Unparen(a).(*ast.Ident); ok && info.ObjectOf(id) == conn {
+					return true
+				}
+			}
+			if se, ok := e.Call.Fun.(*ast.SelectorExpr); ok {
+				if id, ok := ast.Unparen(se.X).(*ast.Ident); ok && info.ObjectOf(id) == conn && se.Sel.Name != "RemoteAddr" && se.Sel.Name != "Close" {
+					return true
+				}
+			}
+			return false
+		}
+		fl := f.Flow()
+		bad := ""
+		for _, r := range f.Graph().Events {
+			if r.Kind != core.EvReturn || !fl.Reachable(r) {
+				continue
+			}
+			if !fl.CallFailedAt(r, func(x *ast.CallExpr) bool { return x == work.Call }) {
+				continue
+			}
+			if p := fl.PathAvoiding(work, func(e *core.Event) bool { return e == r }, usesConn); p != nil {
+				bad = "when the handler's work fails it returns without writing anything to the connection: the requester reads a clean end of stream and cannot tell the failure from an empty result: " + core.PathStr(p)
+			}
+		}
+		c.Check("failure-answered-in-band", f.Name, f.PosStr(), bad == "", bad)
+	}
+	c.Floor("connection handlers with a work closure", n, 15)
+
+	// the archive writer marks the end of the archive only when every file was written
+	st := c.Fn("pkg/tar.Stream")
+	isClose := func(ce *ast.CallExpr) bool {
+		se, ok := ce.Fun.(*ast.SelectorExpr)
+		if !ok || se.Sel.Name != "Close" {
+			return false
+		}
+		t := st.Info().TypeOf(se.X)
+		return t != nil && strings.HasSuffix(t.String(), "tar.Writer")
+	}
+	walk := func(ce *ast.CallExpr) bool {
+		fn, ok := core.Callee(st.Info(), ce).(*types.Func)
+		return ok && fn.Pkg() != nil && fn.Pkg().Path() == "path/filepath" && (fn.Name() == "Walk" || fn.Name() == "WalkDir")
+	}
+	findOrAbort(c, st, "filepath.Walk", evCall(walk), 1)
+	k := 0
+	for _, e := range st.Graph().Events {
+		if !(e.Kind == core.EvCall || e.Kind == core.EvDeferred) || !isClose(e.Call) {
+			continue
+		}
+		k++
+		ok := st.Flow().CallOKAt(e, walk)
+		c.Check("end-of-archive-only-after-complete-walk", fmt.Sprintf("%s/tw.Close#%d", st.Name, k), c.P.Pos(e.Pos()), ok,
+			"the tar writer is closed (which writes the end-of-archive marker) on a path where the directory walk has not been established to have succeeded: an archive that lacks files is indistinguishable from a complete one for the node that restores it")
+	}
+	c.Floor("closes of the archive writer in Stream", k, 1)
+}
+
+// runStreamFailureSignalled (C05 D6): the point stream of a remote iterator has no end marker that the reader
+// insists on, so the reading node takes a clean end of the connection for the end of the data. A handler that
+// streams from a fallible source (an argument of a query iterator type) after its success response must
+// therefore write something to the connection when that call fails, before it returns and the connection closes.
+func runStreamFailureSignalled(c *core.Ctx) {
+	itT := c.P.LookupType("query", "Iterator")
+	c.Need(itT != nil, "type query.Iterator")
+	itI, _ := itT.Underlying().(*types.Interface)
+	c.Need(itI != nil, "query.Iterator is an interface")
+	n := 0
+	for _, f := range c.P.FuncsIn(coord) {
+		if f.Decl == nil || f.Decl.Recv == nil || !strings.HasPrefix(f.Name, coord+".(*Service).process") {
+			continue
+		}
+		info := f.Info()
+		var conn types.Object
+		for _, p := range f.Decl.Type.Params.List {
+			if strings.HasSuffix(core.ExprStr(p.Type), "net.Conn") && len(p.Names) == 1 {
+				conn = info.Defs[p.Names[0]]
+			}
+		}
+		if conn == nil {
+			continue
+		}
+		usesConn := func(e *core.Event) bool {
+			if e.Kind != core.EvCall && e.Kind != core.EvDeferred {
+				return false
+			}
+			for _, a := range e.Call.Args {
+				if id, ok := ast.Unparen(a).(*ast.Ident); ok && info.ObjectOf(id) == conn {
+					return true
+				}
+			}
+			if se, ok := e.Call.Fun.(*ast.SelectorExpr); ok {
+				if id, ok := ast.Unparen(se.X).(*ast.Ident); ok && info.ObjectOf(id) == conn && se.Sel.Name != "RemoteAddr" && se.Sel.Name != "Close" {
+					return true
+				}
+			}
+			return false
+		}
+		fl := f.Flow()
+		k := 0
+		for _, e := range f.Graph().Events {
+			if e.Kind != core.EvCall {
+				continue
+			}
+			consumes := false
+			for _, a := range e.Call.Args {
+				if t := info.TypeOf(a); t != nil && types.IsInterface(t) && types.Implements(t, itI) {
+					consumes = true
+				}
+			}
+			if !consumes {
+				continue
+			}
+			// only calls that return an error
+			if sig, ok := info.TypeOf(e.Call.Fun).(*types.Signature); !ok || sig.Results().Len() == 0 || sig.Results().At(sig.Results().Len()-1).Type().String() != "error" {
+				continue
+			}
+			k++
+			n++
+			bad := ""
+			failedSeen := false
+			for _, r := range f.Graph().Events {
+				if r.Kind != core.EvReturn || !fl.Reachable(r) {
+					continue
+				}
+				call := e.Call
+				if !fl.CallFailedAt(r, func(x *ast.CallExpr) bool { return x == call }) {
+					continue
+				}
+				failedSeen = true
+				if p := fl.PathAvoiding(e, func(x *core.Event) bool { return x == r }, func(x *core.Event) bool { return x != e && usesConn(x) }); p != nil {
+					bad = "when streaming the iterator fails the handler returns without writing anything to the connection: the reading node takes the clean end of the connection for the end of the data and its query returns a partial result without an error: " + core.PathStr(p)
+				}
+			}
+			if !failedSeen {
+				bad = "the error of the call that streams the iterator is not tested"
+			}
+			c.Check("stream-failure-signalled-in-band", fmt.Sprintf("%s/%s#%d", f.Name, core.CalleeName(e), k), c.P.Pos(e.Pos()), bad == "", bad)
+		}
+	}
+	c.Floor("handler calls that stream a query iterator", n, 1)
 }
 
 type atomB struct {
